@@ -52,7 +52,7 @@ def safe(fn):
     return fn
 
 
-def generic_plan(prop, tier, plan, worker, replay=None, extra=None):
+def generic_plan(prop, tier, plan, worker, replay=None, extra=None, post=None):
     """(1) TLC laws, (2) TLC behaviours, (3) replay through `worker`; worker returns
     {"status": ok|skip|violation|known, "id": finding id, "detail": ..., "stats": {...}}"""
     t0 = time.time()
@@ -120,6 +120,11 @@ def generic_plan(prop, tier, plan, worker, replay=None, extra=None):
             vd.note_known(out["id"])
         elif st == "violation":
             vd.violation({"kind": out.get("kind", prop), "case": case, "detail": out.get("detail")}, tag=out.get("tag"))
+    more = post(vd, stats, tier) if post else {}
+    for r_ in more.pop("tlc_runs", []):
+        tr.runs.append(r_)
+    tr.states += more.pop("states", 0)
+    tr.transitions += more.pop("transitions", 0)
     cov = {
         "states": tr.states, "transitions": tr.transitions,
         "traces_validated_against_impl": stats["cases"],
@@ -128,6 +133,7 @@ def generic_plan(prop, tier, plan, worker, replay=None, extra=None):
         "rule": plan["rule"], "tlc_runs": tr.runs, "outcomes": dict(stats),
         "known_findings_seen": dict(vd.known), "exhaustive": False,
     }
+    cov.update(more)
     common.write_evidence(prop, tier, "model_checking", cov, time.time() - t0, len(vd.violations),
                           assumptions=plan.get("assumptions", ASSUME_REL))
     return vd.report()
@@ -1175,7 +1181,8 @@ PLAN_C11 = {
 
 
 def check_C11(tier, replay=None):
-    return generic_plan("C11", tier, PLAN_C11, w_c11, replay)
+    from . import rec_props
+    return generic_plan("C11", tier, PLAN_C11, w_c11, replay, post=rec_props.records_c11)
 
 
 CHECKS["C11"] = check_C11
